@@ -114,6 +114,18 @@ def run(ctx):
             why = judge(s, a, sp)
             if why:
                 failing.append(dict(profile=prof, literal=s, impl=a, spec=sp, why=why))
+    # CSR operands: a numeric CSR operand must be read as the same 32-bit value the literal denotes
+    # (named CSRs aside): CsrImm::from_str(s) = Imm::from_str(s) as u32
+    named = set(n.lower() for n in names)
+    for prof in ("debug", "release"):
+        impl = lib.run_impl(ctx, cmds, release=(prof == "release"), tag="impl2-" + prof)
+        for s_, a, c in zip(lits, impl[:len(lits)], impl[len(lits):2 * len(lits)]):
+            if s_.lower() in named or not all(ch in SYMBOL for ch in s_):
+                continue
+            exp = ("some %d" % (int(a.split(" ")[1]) % (1 << 32))) if a.startswith("some ") else a
+            if c != exp:
+                failing.append(dict(profile=prof, literal=s_, impl=c, spec=exp,
+                                    why="as a CSR operand the literal is read as %s, as an immediate as %s" % (c, a)))
     nontrivial = set(s for s, sp in zip(lits, spec) if all(c in SYMBOL for c in s))
     ctx.coverage.update(
         evaluations=evaluations, distinct_nontrivial=len(nontrivial),
